@@ -1422,7 +1422,9 @@ def interaction_match(molecule, interaction, template_interaction):
             atom_attrs = [{}, ] * len(template_interaction.atoms)
         nodes = [molecule.nodes[atom] for atom in interaction.atoms]
         for atom, template_atom in zip(nodes, atom_attrs):
-            if not attributes_match(atom, template_atom):
+            # 'order' and 'replace' describe the link, not the atom; they are
+            # ignored here just like when the link itself is matched.
+            if not attributes_match(atom, template_atom, ignore_keys=('order', 'replace')):
                 return False
         return attributes_match(interaction.meta, template_interaction.meta)
     return False
